@@ -22,6 +22,11 @@ func fmtNumber(c *Case, a *cur) (View, string) {
 		return v, errs
 	}
 	if wsg >= 0 {
+		if (wsg+exp)%2 == 0 {
+			// the parent has been formatted before the view is derived from it: a view answers for itself
+			_ = v.any().(fmt.Stringer).String()
+			_ = fmt.Sprintf("%d|%.3f", v.any(), v.any())
+		}
 		v, _ = v.WithSignificant(wsg)
 	}
 	return v, ""
